@@ -142,6 +142,8 @@ def rule_walkers(ck, prog, S):
 
 def rule_x1(ck, prog):
     BR.check_function(ck, prog, "C19-X1", "channelSpec", min_sites=1, only=lambda s: s.kind in ("store", "call"))
+    # the walker itself: whatever it writes into the caller's arrays (directly or by a bulk call) stays below the capacity
+    BR.check_function(ck, prog, "C19-X1", "SCPI_ExprChannelListEntry", min_sites=0, only=lambda s: s.kind in ("store", "call"))
 
 
 def rule_x5(ck, prog):
